@@ -41,7 +41,9 @@ FID = "F25"
 THEOREMS = ["c13_exact_triple_calls", "c13_exact_triple_holds", "c13_at_most_once", "c13_memo_transparent",
             "c13_fresh_per_decision", "c13_fail_closed_decision"]
 TWIN_KINDS = ("sync", "values", "flaky", "raising", "badbool", "slow")
-SLOW_T = 0.4     # patched time-out (s) in cases with a slow checker
+SLOW_T = 1.0     # patched time-out (s) in cases with a slow checker: "slow" answers never finish, the others are
+#                  immediate, so the two are apart by far more than a scheduling hiccup
+LATE_SHARE = 0.9  # a time-out of the bridge is excused as "late under load" only if the bridge really waited that long
 
 DEC = contextvars.ContextVar("c13_decision", default=None)
 
@@ -367,6 +369,7 @@ class Recorder:
         self.shape = case_shape(kind, shape)
         self.calls = []
         self.delegates, self.world = {}, None     # relation -> nested evaluation on another Guard (kind "nest")
+        self._tl = threading.local()
         if self.shape == "async_def":
             self.check = self._acheck                      # a coroutine function (bound async method)
         elif self.shape == "decorated":
@@ -388,8 +391,10 @@ class Recorder:
             # evaluate_sync under a running loop moves the evaluation to a fresh thread: the caller's tag does not
             # travel; roots run one after the other, so an untagged lookup belongs to the root in progress
             dec = self.world.get("current_root")
-        self.calls.append({"eng": self.eng, "dec": dec, "q": [subject, relation, resource, ctx], "resp": resp,
-                           "how": how, "ctx_is_dict": isinstance(context, dict)})
+        entry = {"eng": self.eng, "dec": dec, "q": [subject, relation, resource, ctx], "resp": resp,
+                 "how": how, "ctx_is_dict": isinstance(context, dict)}
+        self.calls.append(entry)
+        self._tl.entry = entry
         return resp, how
 
     def _nested_begin(self, spec):
@@ -499,7 +504,11 @@ class Recorder:
         if how == "plain":
             if self._lag():
                 time.sleep(self._lag())
-            return self._now(resp)
+            try:
+                return self._now(resp)
+            except Exception:
+                self._tl.entry["sync_raise"] = True     # raised inside check(): the bridge is never reached
+                raise
         if how in ("future", "task"):
             from rbacx.core.relctx import EVAL_LOOP
             loop = EVAL_LOOP.get()
@@ -549,24 +558,64 @@ def req_objs(req):
 
 
 class patched_timeout:
-    def __init__(self, on):
-        self.on = on
+    """wraps the bridge rbacx.core.policy.resolve_awaitable_in_worker for the duration of a case: with slow=True the
+    time-out is cut down to SLOW_T; always, what the ENGINE saw of each lookup (answer / time-out / exception, and
+    how long the bridge waited, monotonic clock) is recorded, tagged with the decision it belongs to"""
+
+    def __init__(self, slow):
+        self.slow = slow
+        self.records = []
 
     def __enter__(self):
-        if not self.on:
-            return
         import rbacx.core.policy as pol
         self.pol, self.orig = pol, pol.resolve_awaitable_in_worker
-        orig = self.orig
+        orig, slow, records = self.orig, self.slow, self.records
 
         def wrapper(x, loop, *, timeout=5.0):
-            return orig(x, loop, timeout=SLOW_T if (timeout is None or timeout > SLOW_T) else timeout)
+            t = timeout
+            if slow:
+                t = SLOW_T if (timeout is None or timeout > SLOW_T) else timeout
+            r = {"dec": DEC.get(), "timeout": t, "outcome": "seen", "elapsed": 0.0}
+            records.append(r)
+            t0 = time.monotonic()
+            try:
+                return orig(x, loop, timeout=t)
+            except BaseException as e:
+                r["outcome"] = "timeout" if isinstance(e, TimeoutError) or type(e).__name__ == "TimeoutError" else "raised"
+                raise
+            finally:
+                r["elapsed"] = time.monotonic() - t0
 
         pol.resolve_awaitable_in_worker = wrapper
+        return self
 
     def __exit__(self, *a):
-        if self.on:
-            self.pol.resolve_awaitable_in_worker = self.orig
+        self.pol.resolve_awaitable_in_worker = self.orig
+
+    def drain(self, dec=None, all_=False):
+        if all_:
+            out, self.records[:] = list(self.records), []
+            return out
+        return [r for r in self.records if r["dec"] == dec]
+
+
+def mark_late(calls, bridge):
+    """pair the lookups of one decision with what the engine's bridge saw of them (same order; a lookup that raised
+    inside check() itself never reached the bridge).  A lookup whose answer the checker did produce but which the
+    bridge gave up on after really waiting out the time-out is `late`: the engine legitimately read it as timed out."""
+    through = [x for x in calls if not x.get("sync_raise")]
+    if len(through) != len(bridge):
+        return False
+    for x, b in zip(through, bridge):
+        x["bridge"] = [b["outcome"], round(b["elapsed"], 3)]
+        if b["outcome"] == "timeout" and x["resp"][0] != "timeout" and b["timeout"] and b["elapsed"] >= LATE_SHARE * b["timeout"]:
+            x["late"] = True
+    return True
+
+
+def seen_resp(x):
+    """the response of a lookup as the engine saw it"""
+    return ["timeout"] if x.get("late") else x["resp"]
 
 
 def _guard(policy, strict, checker):
@@ -584,11 +633,14 @@ def run_seq_impl(c):
     api = c.get("api", "async")
     out = []
 
+    br = patched_timeout(base_kind(c.get("checker")) == "slow")
+
     def take(k, d):
         calls = [x for x in rec.calls] if rec else []
         if rec:
             rec.calls = []
-        out.append({"decision": d, "calls": calls})
+        paired = mark_late(calls, br.drain(all_=True))
+        out.append({"decision": d, "calls": calls, "bridge_paired": paired})
 
     async def one_async(k, step):
         cur["data"] = step.get("data") or {}
@@ -606,7 +658,7 @@ def run_seq_impl(c):
         for k, step in enumerate(c["steps"]):
             await one_async(k, step)
 
-    with patched_timeout(base_kind(c.get("checker")) == "slow"):
+    with br:
         if api == "sync":
             for k, step in enumerate(c["steps"]):
                 cur["data"] = step.get("data") or {}
@@ -653,23 +705,25 @@ def run_conc_impl(c):
             except Exception as e:  # noqa: BLE001
                 res[k] = ["Raise", type(e).__name__]
 
-    if c.get("mode") == "threads":
-        n = max(1, int(c.get("threads", 4)))
-        barrier = threading.Barrier(n)
-        ths = [threading.Thread(target=job_thread, args=(list(range(i, len(jobs), n)), barrier)) for i in range(n)]
-        for t in ths:
-            t.start()
-        for t in ths:
-            t.join()
-    else:
-        async def go():
-            # each job in its own task (own context copy), all started before any finishes
-            await asyncio.gather(*[asyncio.create_task(job_async(k, j)) for k, j in enumerate(jobs)])
-        asyncio.run(go())
+    with patched_timeout(False) as br:
+        if c.get("mode") == "threads":
+            n = max(1, int(c.get("threads", 4)))
+            barrier = threading.Barrier(n)
+            ths = [threading.Thread(target=job_thread, args=(list(range(i, len(jobs), n)), barrier)) for i in range(n)]
+            for t in ths:
+                t.start()
+            for t in ths:
+                t.join()
+        else:
+            async def go():
+                # each job in its own task (own context copy), all started before any finishes
+                await asyncio.gather(*[asyncio.create_task(job_async(k, j)) for k, j in enumerate(jobs)])
+            asyncio.run(go())
     out = []
     allcalls = [x for r in recs if r for x in r.calls]
     for k, j in enumerate(jobs):
-        out.append({"decision": res[k], "calls": [x for x in allcalls if x["dec"] == k]})
+        calls = [x for x in allcalls if x["dec"] == k]
+        out.append({"decision": res[k], "calls": calls, "bridge_paired": mark_late(calls, br.drain(k))})
     stray = [x for x in allcalls if not isinstance(x["dec"], int) or not (0 <= x["dec"] < len(jobs))]
     return {"decisions": out, "stray": stray}
 
@@ -704,16 +758,19 @@ def run_nest_impl(c):
             except Exception as e:  # noqa: BLE001
                 r["decision"] = ["Raise", type(e).__name__]
 
-    if api == "sync":
-        for root in c["roots"]:
-            r, g = begin(root)
-            try:
-                r["decision"] = dec_dict(g.evaluate_sync(*req_objs(root["req"])))
-            except Exception as e:  # noqa: BLE001
-                r["decision"] = ["Raise", type(e).__name__]
-    else:
-        asyncio.run(go())
+    with patched_timeout(False) as br:
+        if api == "sync":
+            for root in c["roots"]:
+                r, g = begin(root)
+                try:
+                    r["decision"] = dec_dict(g.evaluate_sync(*req_objs(root["req"])))
+                except Exception as e:  # noqa: BLE001
+                    r["decision"] = ["Raise", type(e).__name__]
+        else:
+            asyncio.run(go())
     calls = [x for rec in world["recs"] if rec for x in rec.calls]
+    for r in world["records"]:
+        mark_late([x for x in calls if x["dec"] == r["id"]], br.drain(r["id"]))
     return {"records": world["records"], "calls": calls}
 
 
@@ -792,12 +849,14 @@ def full_table(kind, data, policy, req, calls):
         qs = spec_queries(policy, req)
     except Exception:  # noqa: BLE001
         qs = []
+    late = {qkey(*x["q"]) for x in calls if x.get("late")}
     for q in qs + [x["q"] for x in calls]:
         k = qkey(*q)
         if k in seen:
             continue
         seen.add(k)
-        rows.append([q[0], q[1], q[2], q[3], model_resp(respond(kind, data, *q))])
+        # an answer the engine's bridge gave up on after waiting out the time-out counts as timed out
+        rows.append([q[0], q[1], q[2], q[3], ["raise"] if k in late else model_resp(respond(kind, data, *q))])
     return rows
 
 
@@ -852,6 +911,7 @@ def model_nest(cases, impls):
             if e.get("checker"):
                 calls = [x for r in i["records"] if r["engine"] == ei and case_key({"r": r["req"]}) == rk for x in nest_calls(i, r)]
                 rows, seen = [], set()
+                late = {qkey(*x["q"]) for x in calls if x.get("late")}
                 try:
                     qs = spec_queries(e["policy"], req)
                 except Exception:  # noqa: BLE001
@@ -862,6 +922,9 @@ def model_nest(cases, impls):
                         continue
                     seen.add(k)
                     dl = (e.get("delegates") or {}).get(q[1])
+                    if k in late:
+                        rows.append([q[0], q[1], q[2], q[3], ["raise"]])
+                        continue
                     if dl is not None:
                         inner = out[ci].get((dl["engine"], case_key({"r": dl["req"]})))
                         md = inner["pure"] if inner else ["Ood"]
@@ -982,7 +1045,12 @@ def judge_decision(chk, case, where, policy, req, kind, impl, model, others, rep
     if md == ["Ood"] or mp_ == ["Ood"]:
         chk.count("ood")
         return "ood"
-    show = {"where": where, "decision": D, "calls": [x["q"] + [x["resp"]] for x in calls]}
+    show = {"where": where, "decision": D,
+            "calls": [x["q"] + [x["resp"]] + ([{"engine_saw": x.get("bridge"), "late": bool(x.get("late"))}] if x.get("bridge") else [])
+                      for x in calls]}
+    for x in calls:
+        if x.get("late"):
+            chk.count("late-under-load")
     mshow = {"decision": md, "by_relationship_data": mp_, "log": model["log"], "canonical_queries": model["queries"]}
     # (a) canonical triple and merged context
     try:
@@ -1252,6 +1320,28 @@ def order_by_reproducibility(chk, start):
     chk.violations[start:] = alone + needs_history + rest
 
 
+def timing_involved(c, i):
+    """does the case depend on the (patched) time-out, or did the engine's bridge time out on some lookup?"""
+    if c.get("kind", "seq") == "seq" and base_kind(c.get("checker")) == "slow":
+        return True
+    calls = list(i.get("calls") or [])
+    for r in i.get("decisions") or []:
+        calls += r.get("calls") or []
+    return any(x.get("late") or (x.get("bridge") or [""])[0] == "timeout" for x in calls)
+
+
+def confirm_timing(chk, suspects):
+    """a failure in a case that involves a time-out is reported only if the case, evaluated alone in a fresh process
+    (fresh Guards, nothing else running in the harness), fails three times out of three"""
+    for c, viols, corrs in suspects:
+        if all(reproduces_alone(c) for _ in range(3)):
+            chk.violations.extend(viols)
+            chk.corr_breaks.extend(corrs)
+        else:
+            chk.extra["timing_dependent_not_reproduced"] = chk.extra.get("timing_dependent_not_reproduced", 0) + 1
+            chk.count("timing-dependent-not-reproduced")
+
+
 def check_cases(chk, cases, replay=False, search=True):
     nviol0 = len(chk.violations)
     try:
@@ -1273,9 +1363,15 @@ def _check_cases(chk, cases, replay=False, search=True):
     models = model_lines(cases, impls)
     ncorr0 = len(chk.corr_breaks)
     bad_cases = []
+    suspects = []
     for c, i, m in zip(cases, impls, models):
         chk.count("fam:" + c.get("fam", "?"))
+        nv, nc = len(chk.violations), len(chk.corr_breaks)
         vs = check_one(chk, c, i, m, replay)
+        if not replay and (len(chk.violations) > nv or len(chk.corr_breaks) > nc) and timing_involved(c, i):
+            suspects.append((c, chk.violations[nv:], chk.corr_breaks[nc:]))
+            del chk.violations[nv:], chk.corr_breaks[nc:]
+            vs = ["timing"]
         nontriv = any(r.get("calls") for r in i.get("decisions", [])) or bool(i.get("calls")) or c.get("kind") == "hash"
         if c.get("kind") == "nest":
             chk.traces += len(i["records"])
@@ -1306,9 +1402,18 @@ def _check_cases(chk, cases, replay=False, search=True):
             da = [(norm_dec(r["decision"]), [x["q"] for x in r["calls"]]) for r in a["decisions"]]
             ds = [(norm_dec(r["decision"]), [x["q"] for x in r["calls"]]) for r in s["decisions"]]
             chk.count("twin:" + c["shape"])
+            if any(x.get("late") for i2 in (a, s) for r in i2["decisions"] for x in r["calls"]):
+                chk.count("twin:late-under-load-skipped")      # the engine legitimately saw a time-out there
+                continue
             if da != ds:
+                nv = len(chk.violations)
                 chk.violation("a synchronous and an asynchronous checker (%s) with the same relationship data give different "
                               "decisions or lookups (c13_sync_async_same)" % c["shape"], c, impl={"sync": ds, "async": da})
+                if not replay and timing_involved(c, a):
+                    suspects.append((c, chk.violations[nv:], []))
+                    del chk.violations[nv:]
+    if suspects:
+        confirm_timing(chk, suspects)
     ntw = [c for c in cases if c.get("kind") == "nest" and (replay or c.get("twin"))]
     if ntw:
         def all_plain(c):
@@ -1725,6 +1830,7 @@ def run(chk):
                        "relationship checkers raise only Exception subclasses and return JSON-like values",
                        "attribution of a lookup to its decision uses a harness ContextVar carried by the engine's own context "
                        "propagation (asyncio tasks, asyncio.to_thread, run_coroutine_threadsafe)"]
+    chk.extra.setdefault("timing_dependent_not_reproduced", 0)
     cases = corpus_cases() + f23_cases()
     cases += enumerated(chk)
     cases += conc_cases(chk, 150 if quick else 1500)
